@@ -206,6 +206,24 @@ def run_case(case):
                     if out2 and not take(out2):
                         raise Violation("printed_without_active_edge", idx, {"text": out2[:200], "after": "a caught assertion",
                                                                              "owed_by_other_processes": pool_texts[:6]})
+                # ... and when the domain of the stopped process has an asynchronous reset: asserting it now (no clock edge) wakes
+                # that process for the reset alone - its statements must not run (again)
+                fdom = fired[0][1]
+                dspec = next((d_ for d_ in case["prog"]["domains"] if d_["name"] == fdom), None)
+                if dspec is not None and dspec.get("async_reset") and not dspec.get("reset_less"):
+                    try:
+                        drv.drive({fdom + ".rst": 1})
+                    except AssertionError as e2:
+                        if str(e2) in pool_msgs:
+                            pool_msgs.remove(str(e2))
+                        else:
+                            raise Violation("assert_raised_without_edge", idx, {"message": str(e2)[:300], "after": "an assertion that "
+                                                                               "the caller caught, then the asynchronous reset rose; no clock edge since"})
+                    out3 = drv.take_stdout()
+                    if out3 and not take(out3):
+                        raise Violation("printed_without_active_edge", idx, {"text": out3[:200], "after": "a caught assertion and a rise "
+                                                                             "of the asynchronous reset", "owed_by_other_processes": pool_texts[:6]})
+                    P["async_reset_after_caught_assertion"] = P.get("async_reset_after_caught_assertion", 0) + 1
                 if done:
                     P["continued_after_assertion"] = P.get("continued_after_assertion", 0) + 1
             raise Stop()
